@@ -174,20 +174,22 @@ func (c *Ctx) bocWidthCeil() {
 		var divs []string
 		ceil, plus7, sawLen := false, false, false
 		seen := map[ssa.Value]bool{}
-		var walk func(v ssa.Value, d int)
-		walk = func(v ssa.Value, d int) {
+		var walk func(v ssa.Value, cx *vctx, d int)
+		walk = func(v ssa.Value, cx *vctx, d int) {
+			// a parameter of a helper entered through its result stands for the argument of that call
+			v, cx = resolveVal(v, cx)
 			if v == nil || seen[v] || d > 30 {
 				return
 			}
 			seen[v] = true
 			switch x := v.(type) {
 			case *ssa.Convert:
-				walk(x.X, d+1)
+				walk(x.X, cx, d+1)
 			case *ssa.ChangeType:
-				walk(x.X, d+1)
+				walk(x.X, cx, d+1)
 			case *ssa.Phi:
 				for _, e := range x.Edges {
-					walk(e, d+1)
+					walk(e, cx, d+1)
 				}
 			case *ssa.BinOp:
 				switch x.Op {
@@ -197,14 +199,14 @@ func (c *Ctx) bocWidthCeil() {
 					} else {
 						divs = append(divs, "/?")
 					}
-					walk(x.X, d+1)
+					walk(x.X, cx, d+1)
 				case token.SHR:
 					if f, ok := constNum(x.Y); ok {
 						divs = append(divs, fmt.Sprintf("/%g", float64(int64(1)<<uint(f))))
 					} else {
 						divs = append(divs, "/?")
 					}
-					walk(x.X, d+1)
+					walk(x.X, cx, d+1)
 				case token.ADD:
 					if f, ok := constNum(x.Y); ok && f == 7 {
 						plus7 = true
@@ -212,37 +214,42 @@ func (c *Ctx) bocWidthCeil() {
 					if f, ok := constNum(x.X); ok && f == 7 {
 						plus7 = true
 					}
-					walk(x.X, d+1)
-					walk(x.Y, d+1)
+					walk(x.X, cx, d+1)
+					walk(x.Y, cx, d+1)
 				case token.MUL, token.REM, token.SUB:
 					divs = append(divs, x.Op.String()+"?")
-					walk(x.X, d+1)
-					walk(x.Y, d+1)
+					walk(x.X, cx, d+1)
+					walk(x.Y, cx, d+1)
 				default:
-					walk(x.X, d+1)
-					walk(x.Y, d+1)
+					walk(x.X, cx, d+1)
+					walk(x.Y, cx, d+1)
 				}
 			case *ssa.Call:
 				switch q := callQName(&x.Call); q {
 				case "math.Ceil":
 					ceil = true
-					walk(x.Call.Args[0], d+1)
+					walk(x.Call.Args[0], cx, d+1)
 				case "math.Max", "math.Min", "math.Floor":
 					for _, a := range x.Call.Args {
-						walk(a, d+1)
+						walk(a, cx, d+1)
 					}
 				case "math/bits.Len", "math/bits.Len64", "math/bits.Len32":
 					sawLen = true
 				default:
 					if bi, ok := x.Call.Value.(*ssa.Builtin); ok && (bi.Name() == "max" || bi.Name() == "min") {
 						for _, a := range x.Call.Args {
-							walk(a, d+1)
+							walk(a, cx, d+1)
+						}
+					} else if h := plainHelper(x.Call.StaticCallee()); h != nil && h.Signature.Results().Len() == 1 {
+						// the rounding arithmetic extracted into a helper: follow what the helper returns
+						for _, r := range helperReturns(x, cx, nil) {
+							walk(r.v, r.cx, d+1)
 						}
 					}
 				}
 			}
 		}
-		walk(size, 0)
+		walk(size, nil, 0)
 		if !sawLen {
 			continue // the width does not come from a bit length at all: bocHeaderAgreement's width-source rule reports that
 		}
@@ -263,36 +270,43 @@ func (c *Ctx) bocWidthCeil() {
 // a strict comparison a chain of cells keeps depth 0 however long it is.
 func (c *Ctx) parserDepthBound() {
 	const R = "E1.P5-depth-compute"
-	f := c.mustFn(R, "boc", "DeserializeBoc")
-	if f == nil {
+	entry := c.mustFn(R, "boc", "DeserializeBoc")
+	if entry == nil {
 		return
 	}
-	// the limit test
+	// the limit test: in DeserializeBoc, or in the unexported helper that holds its linking loop
+	f := entry
 	var dIA *ssa.IndexAddr
-	for _, b := range f.Blocks {
-		iff := lastIf(b)
-		if iff == nil {
-			continue
-		}
-		bo, ok := iff.Cond.(*ssa.BinOp)
-		if !ok {
-			continue
-		}
-		hit := false
-		for _, s := range b.Succs {
-			if returnsSentinel(s, "ErrDepthIsTooBig") {
-				hit = true
+	for _, g := range c.helperClosure(entry, 2, func(h *ssa.Function) bool { return plainHelper(h) == nil }) {
+		for _, b := range g.Blocks {
+			iff := lastIf(b)
+			if iff == nil {
+				continue
 			}
-		}
-		if !hit {
-			continue
-		}
-		for _, side := range []ssa.Value{bo.X, bo.Y} {
-			if u, ok := stripConv(side).(*ssa.UnOp); ok && u.Op == token.MUL {
-				if ia, ok := u.X.(*ssa.IndexAddr); ok {
-					dIA = ia
+			bo, ok := iff.Cond.(*ssa.BinOp)
+			if !ok {
+				continue
+			}
+			hit := false
+			for _, s := range b.Succs {
+				if returnsSentinel(s, "ErrDepthIsTooBig") {
+					hit = true
 				}
 			}
+			if !hit {
+				continue
+			}
+			for _, side := range []ssa.Value{bo.X, bo.Y} {
+				if u, ok := stripConv(side).(*ssa.UnOp); ok && u.Op == token.MUL {
+					if ia, ok := u.X.(*ssa.IndexAddr); ok {
+						dIA = ia
+						f = g
+					}
+				}
+			}
+		}
+		if dIA != nil {
+			break
 		}
 	}
 	if dIA == nil {
